@@ -14,10 +14,14 @@ ROOT = os.path.dirname(os.path.dirname(os.path.abspath(__file__)))
 SEQ = os.path.join(ROOT, "sim/target/release/seqsim")
 SCHED = os.path.join(ROOT, "sched/target/release/schedsim")
 SCHED_PROPS = {"C14", "C15", "C16"}
+# served by both engines: the SCHED part is traced under the label <ID>/sched
+DUAL = {"C08", "C11"}
 
 
 def trace(prop, start, stride, end):
-    exe = SCHED if prop in SCHED_PROPS else SEQ
+    sched_part = prop.endswith("/sched")
+    prop = prop.split("/")[0]
+    exe = SCHED if (prop in SCHED_PROPS or sched_part) else SEQ
     out = {}
     cur = start
     while cur < end:
@@ -59,6 +63,7 @@ def main():
         m = json.load(open(os.path.join(ROOT, "MANIFEST.json")))
         props = [c["property_id"] for c in m["checks"]]
     bad = 0
+    props = [x for p in props for x in ([p, p + "/sched"] if p in DUAL else [p])]
     for prop in props:
         # heavy properties get fewer indices
         nn = n // 8 if prop in ("C08", "C19") else n
